@@ -471,11 +471,18 @@ impl<K: Hash + Eq, V, RH: BuildHasher, FH: BuildHasher, GH: BuildHasher> Cache<K
         // frequently used list
         if self.ghost.contains(&k) {
             return if recent_len + freq_len >= self.size {
+                // the preferred queue may be empty (quota 0, or nothing promoted yet):
+                // fall back to the other one, a full cache always has an entry in one of them
                 let ent = if recent_len > self.recent_size {
-                    self.recent.remove_lru_in().unwrap()
+                    self.recent
+                        .remove_lru_in()
+                        .or_else(|| self.frequent.remove_lru_in())
                 } else {
-                    self.frequent.remove_lru_in().unwrap()
-                };
+                    self.frequent
+                        .remove_lru_in()
+                        .or_else(|| self.recent.remove_lru_in())
+                }
+                .unwrap();
 
                 let rst = self.ghost.put_or_evict_nonnull(ent);
                 match self.ghost.map.remove(&key_ref) {
@@ -541,10 +548,15 @@ impl<K: Hash + Eq, V, RH: BuildHasher, FH: BuildHasher, GH: BuildHasher> Cache<K
         // if ghost LRU is also full, the cache will evict the less recent used entry of
         // ghost LRU.
         let ent = if recent_len >= self.recent_size {
-            self.recent.remove_lru_in().unwrap()
+            self.recent
+                .remove_lru_in()
+                .or_else(|| self.frequent.remove_lru_in())
         } else {
-            self.frequent.remove_lru_in().unwrap()
-        };
+            self.frequent
+                .remove_lru_in()
+                .or_else(|| self.recent.remove_lru_in())
+        }
+        .unwrap();
 
         self.recent.put_nonnull(bks);
         self.ghost.put_nonnull(ent)
